@@ -33,9 +33,20 @@ PROFILES = [
 SMALL = [[0, 1, 2, 6], [0, 1, 18, 19, 2]]
 
 
+def refused(s):
+    """the call was refused: one of the refusal classes, or — for the single-node entry points whose lookup fails
+    before anything is touched — the KeyError / raising id callback of `del tree[key]` and the AttributeError of a
+    sibling shortcut on the system root (Lean: `refused_unchanged` covers `Op.delItem` / `Op.addVia`)"""
+    if s.impl_res in H.REFUSALS:
+        return True
+    if s.op["op"] == "w.del" and s.impl_res in ("key", "callback"):
+        return True
+    return s.op["op"] == "w.add" and s.op.get("via") in ("prepend_sibling", "append_sibling") and s.impl_res == "attribute"
+
+
 def judge(s, r):
     out = []
-    if s.impl_res in H.REFUSALS and s.changed:
+    if refused(s) and s.changed:
         finding = None
         op = s.op
         if op["op"] == "w.remove" and op.get("keep") and op.get("clones") and s.impl_res == "unique" and s.model_res == "unique" and not s.problems:
